@@ -79,6 +79,7 @@ def run(check: Check):
   _derive(check)
   _intersect(check)
   _slice_filters(check)
+  _fetch_loops(check)
   _preprocessors(check)
   _client_dataset(check)
   _order(check, impls)
@@ -542,6 +543,33 @@ def _slice_filters(check: Check):
             verdict = None
     check.ob('R-SIB.range-py', fi, f'{cname}.slice id filter', verdict,
              'ids are kept iff start <= id (when start is given) and id < stop (when stop is given): ' + '; '.join(shown)[:400])
+
+
+def _fetch_loops(check: Check):
+  """`while True: row = cursor.fetchone(); if row is None: break; yield ...` - the row loops of the SQLite view stop exactly at the end of
+  the result set: the break is taken when (and only when) fetchone() returned None, and the row is used on the other arm."""
+  repo = check.repo
+  ci = repo.cls('fedjax.core.sqlite_federated_data', 'SQLiteFederatedData')
+  n = 0
+  for name, mth in ci.methods.items():
+    ff = FuncFlow.of(repo, mth)
+    for d in [d for ds in ff.rd.defs_at.values() for d in ds if isinstance(d.value, ast.Call) and isinstance(d.value.func, ast.Attribute) and
+              d.value.func.attr == 'fetchone' and d.index is None]:
+      loop = wmean._loop_of(ff, d.node.ast)
+      if loop is None:
+        continue
+      n += 1
+      breaks = [x for x in ast.walk(loop) if isinstance(x, ast.Break)]
+      ok = None
+      for b in breaks:
+        gs = [(t, pol) for t, pol in guards_of(ff, b, implied=False) if isinstance(t, ast.Compare) and txt(t.left) == d.name and isinstance(
+            t.ops[0], ast.Is) and isinstance(t.comparators[0], ast.Constant) and t.comparators[0].value is None]
+        if gs:
+          ok = all(pol for _, pol in gs) if ok is None else (ok and all(pol for _, pol in gs))
+      check.ob('R-SQL.fetch', mth, f'{d.name} = cursor.fetchone(); if {d.name} is None: break', ok,
+               'the loop ends when fetchone() returns None and continues otherwise' if ok else
+               'the loop leaves on a row and goes on with None (or the end test was not recognised)', node=d.node.ast)
+  return n
 
 
 def view_purity(check: Check, classes, rule: str = 'R-PURE', only=None) -> int:
